@@ -7,3 +7,5 @@ import "github.com/acquirecloud/golibs/kvs"
 const hooksOn = false
 
 func waiterTable(st kvs.Storage) (entries, waiters int, ok bool) { return 0, 0, false }
+
+func withStorageLock(st kvs.Storage, f func()) bool { return false }
